@@ -119,11 +119,36 @@ impl ElixirRange {
         let last_key = OwnedTerm::Atom(Atom::new("last"));
         let step_key = OwnedTerm::Atom(Atom::new("step"));
 
-        let first = map.get(&first_key)?.as_integer()?;
-        let last = map.get(&last_key)?.as_integer()?;
-        let step = map.get(&step_key)?.as_integer()?;
+        let first = i64_bound(map.get(&first_key)?)?;
+        let last = i64_bound(map.get(&last_key)?)?;
+        let step = i64_bound(map.get(&step_key)?)?;
 
         Some(Self { first, last, step })
+    }
+}
+
+/// A 64-bit bound of a range. Integers outside the 32-bit range travel as big
+/// integers, so after a trip over the wire a bound may arrive in that form.
+fn i64_bound(term: &OwnedTerm) -> Option<i64> {
+    match term {
+        OwnedTerm::Integer(i) => Some(*i),
+        OwnedTerm::BigInt(big) => {
+            if big.digits.iter().skip(8).any(|&d| d != 0) {
+                return None;
+            }
+            let magnitude = big
+                .digits
+                .iter()
+                .take(8)
+                .rev()
+                .fold(0u64, |acc, &d| (acc << 8) | u64::from(d));
+            if big.sign.is_negative() {
+                0i64.checked_sub_unsigned(magnitude)
+            } else {
+                i64::try_from(magnitude).ok()
+            }
+        }
+        _ => None,
     }
 }
 
